@@ -31,8 +31,17 @@ def build(scene, atmosphere_inside=False):
         kw["atmosphere"] = atm
     if scene.get("surface") is not None:
         kw["surface"] = scene["surface"]
-    sp = make_snowpack(thickness=scene["thickness"], microstructure_model=scene.get("microstructure", "exponential"),
-                       density=scene["density"], temperature=scene["temperature"], substrate=sub,
+    per_layer = dict(thickness=scene["thickness"], density=scene["density"], temperature=scene["temperature"])
+    if scene.get("series_labels"):
+        # the per-layer arguments as pandas Series whose integer labels are not 0..n-1 in order (a pit table recorded bottom-up and sorted
+        # surface first): values are taken by position
+        import pandas as pd
+        n = len(scene["thickness"])
+        idx = list(range(n - 1, -1, -1)) if scene["series_labels"] == "reversed" else [10 * (i + 1) for i in range(n)]
+        per_layer = {k: pd.Series(v, index=idx) for k, v in per_layer.items()}
+        kw = {k: (pd.Series(v, index=idx) if isinstance(v, list) and len(v) == n else v) for k, v in kw.items()}
+    sp = make_snowpack(thickness=per_layer["thickness"], microstructure_model=scene.get("microstructure", "exponential"),
+                       density=per_layer["density"], temperature=per_layer["temperature"], substrate=sub,
                        interface=interface, **kw)
     return sp, atm
 
